@@ -21,7 +21,9 @@ Trace lines:
 import os
 
 from nvlib import engine as E
+from nvlib import extract as X
 from nvlib.check import Prop
+from props import c14_extract as T
 
 N = 4096  # MESSAGE_BUF_SIZE; only used to aim the generators (the model uses the regenerated constant)
 
@@ -50,9 +52,16 @@ class C14(Prop):
     theorems = ["NV.C14.model_satisfies_spec", "NV.C14.ring_inv", "NV.C14.ring_indices_in_bounds",
                 "NV.C14.chunk_in_bounds", "NV.C14.no_fault", "NV.C14.write_interest_when_pending",
                 "NV.C14.N_two_le", "NV.C14.only_tail_lost", "NV.C14.write_stores_prefix_image",
-                "NV.C14.sent_then_ring_is_stored"]
-    consts = [("messageBufSize", "MESSAGE_BUF_SIZE")]
+                "NV.C14.sent_then_ring_is_stored", "NV.C14.delivered_is_ordered_prefix_image",
+                "NV.C14.delivered_texts",
+                # bridges between the definitions regenerated from src/comm.c and the ring operations
+                "NV.C14.chunkLen_eq", "NV.C14.producerNext_eq", "NV.C14.consumerNext_eq", "NV.C14.lengthAfterSend_eq",
+                "NV.C14.thrFull_eq", "NV.C14.thrLF_eq", "NV.C14.keepsData_eq", "NV.C14.keepsData_pipe",
+                "NV.C14.LF_CR_values"]
+    consts = [("messageBufSize", "MESSAGE_BUF_SIZE"), ("eWouldBlock", "EWOULDBLOCK"), ("eIntr", "EINTR"),
+              ("ePipe", "EPIPE")]
     const_headers = ["src/comm.h"]
+    const_prelude = "#include <errno.h>"
     quick_n = 250
     thorough_n = 3000
     search_n = 800
@@ -73,13 +82,26 @@ class C14(Prop):
             "EINTR, close/peer close/peer FIN with pending data) + seeded random histories of write/vwrite/sendres/"
             "flush/cycle/wready/close/peerfin/peerclose with message lengths on both sides of the buffer size, "
             "LF densities 0..1 and send scripts of partial/W/I/P/E results, half of them started at a random ring "
-            "offset; a case is non-trivial when its trace has >= 2 lines; distinct = distinct canonical "
+            "offset, for three kinds of user (PORT_ASCII, PORT_TELNET with its connect negotiation, console user); a case is non-trivial when its trace has >= 2 lines; distinct = distinct canonical "
             "implementation trace")
-    not_covered = ["console user branch of flush_message (fd-less write to stdout, all_users[0]) is not exercised",
-                   "snoop forwarding (receive_snoop) from add_message/add_vmessage",
-                   "telnet IAC doubling is not done by the code and not claimed; PORT_TELNET negotiation output at connect",
+    not_covered = ["console reconnect (console_mode option) and the console worker thread; the console user's output path "
+                   "itself (write(2) branch of flush_message, flush at the end of add_message) is modelled and run",
+                   "snoop forwarding (receive_snoop) from add_message/add_vmessage (an LPC call after the loop; does not touch the ring)",
+                   "telnet IAC doubling is not done by the code and not claimed",
                    "builds with FLUSH_OUTPUT_IMMEDIATELY",
                    "Windows IOCP runtime (only the Linux epoll runtime is run)"]
+
+    def gen_extra(self, ctx, bdir):
+        """chunk rule, index updates, ring-full tests, CR/LF bytes and the errno classification of flush_message,
+        translated from the text of src/comm.c (props/c14_extract.py); TieBroken when a site cannot be located"""
+        src = open(os.path.join(E.REPO, "src/comm.c"), errors="replace").read()
+
+        def errno_value(name):
+            try:
+                return X.probe_values(bdir, [("v", name)], self.const_headers, self.const_prelude)["v"]
+            except X.TieBroken:
+                raise X.TieBroken("guard:flush_message.errno", "errno name %s of flush_message is not a constant" % name)
+        return T.extract(src, errno_value)
 
     def prepare(self, ctx):
         self.exe = E.compile_harness("c14", [os.path.join(E.VERIF, "harness/c14/c14.c")], exclude_objs=("comm.c.o",))
@@ -173,6 +195,18 @@ class C14(Prop):
         # empty message
         mk("empty", [w(b""), "wready", vw(b""), "cycle"])
         mk("bytes-hi-cr", [w(bytes([0xff, 0xfa, 0x0d, 0x0a, 0x0d, 0x80, 0x0a])), vw(bytes([0xff, 0x0d, 0x0a]))])
+        # kinds of user: telnet negotiation at connect (partial / refused / failing sends), console write(2) path
+        mk("telnet-connect", ["connect telnet", w(b"hi\n")])
+        mk("telnet-connect-partial", ["sendres 5,W", "connect telnet", w(b"hi\n"), "wready"])
+        mk("telnet-connect-epipe", ["sendres 3,P", "connect telnet", w(b"lost\n")])
+        mk("telnet-connect-eintr", ["sendres I", "connect telnet", "cycle"])
+        mk("console-basic", ["connect console", w(b"hello\n"), vw(b"v\n")])
+        mk("console-partial", ["connect console", "sendres 1,W,2,I", w(b"hello\n"), "cycle", "wready", "wready"])
+        mk("console-full-refused", ["connect console", "sendres W,W,W", w(filler(N + 100)), "wready"])
+        mk("console-long", ["connect console", "sendres 1000,7,W", w(filler(3 * N, 5)), "wready"])
+        mk("console-epipe", ["connect console", "sendres P", w(b"x\n"), w(b"y\n"), "close"])
+        mk("console-close-pending", ["connect console", "sendres W", w(b"abc\n"), "sendres 2", "close", w(b"z")])
+        mk("ascii-explicit", ["connect ascii", w(b"a\n")])
         return B
 
     # ---- random ---------------------------------------------------------------
@@ -228,6 +262,11 @@ class C14(Prop):
     def gen_case(self, rng, cid):
         body = []
         offset = 0
+        kind = rng.weighted([("ascii", 5), ("telnet", 3), ("console", 3), (None, 2)])
+        if kind:
+            if rng.chance(1, 3):
+                body.append("sendres " + ",".join(self.gen_tok(rng, 0) for _ in range(rng.range(1, 3))))
+            body.append("connect " + kind)
         if rng.chance(1, 2):
             offset = rng.range(1, N - 1)
             body += [w(filler(offset, rng.below(1000))), "flush"]
@@ -237,6 +276,8 @@ class C14(Prop):
                 break           # after the connection went away only a few more ops are interesting
             k = rng.weighted([("write", 10), ("vwrite", 3), ("sendres", 8), ("flush", 4), ("cycle", 3), ("wready", 4),
                               ("close", 1), ("peerfin", 1), ("peerclose", 1), ("dump", 1)])
+            if kind == "console" and k in ("peerfin", "peerclose"):
+                k = "close"     # the console has no peer socket
             if k in ("write", "vwrite"):
                 body.append("%s %s" % (k, hx(self.gen_msg(rng, self.gen_len(rng)))))
             elif k == "sendres":
